@@ -390,6 +390,7 @@ def shards(tier, seed):
         sh.append((tier, "frag-feed", n_graph + 1, fi))
     for k in range(len(LONGTAG)):
         sh.append((tier, "longtag", k))
+    sh.append((tier, "transport", 0))
     cases = list(trunc_cases(tier))
     nshard = 61  # prime: coprime with the case strides below, so heavy cases spread over shards
     heavy = [(tier, "trunc", s, nshard) for s in range(nshard)]
@@ -423,6 +424,59 @@ def run_shard(shard):
                 "replay": dict(extra, stream=S, T=T, tname=tname, pieces=pieces),
             }
 
+    if what == "transport":
+        # garbage BYTES (not text) through the real TCP client and server handlers: whatever byte values arrive, in
+        # whatever pieces, the receive loop survives and the valid messages around the junk are delivered
+        from indi.routing import Device, Router
+        from indi.transport.client.tcp import ConnectionHandler as ClientH
+        from indi.transport.server.tcp import ConnectionHandler as ServerH
+
+        from mc.core import vloop as VL
+
+        junks = [b"\xff\xfe\x00", b"\xc3", b"\xb0 \xe9", b"\xe2\x82", b"\x80\x81\xbf", b"caf\xc3\xa9 \xf0\x9f\x98", bytes(range(128, 256))]
+        v1 = V1.encode()
+        for jk in junks:
+            data = jk + v1 + jk + V2.encode() + jk
+            bfeeds = [[data], [bytes([b]) for b in data]] + [[data[:c], data[c:]] for c in range(1, len(data))]
+            for side in ("client", "server"):
+                for pieces in bfeeds:
+                    loop = VL.VLoop().install()
+                    try:
+                        got = []
+                        ep = VL.Endpoint(loop, "g")
+                        if side == "client":
+                            h = ClientH(ep.reader, ep.writer, got.append)
+                        else:
+                            router = Router()
+
+                            class RecD(Device):
+                                def accepts(self, device):
+                                    return True
+
+                                def message_from_client(self, message):
+                                    got.append(message)
+
+                            router.register_device(RecD())
+                            h = ServerH(ep.reader, ep.writer, router)
+                        task = loop.create_task(h.wait_for_messages())
+                        loop.quiesce()
+                        for pz in pieces:
+                            ep.feed(pz)
+                            loop.quiesce()
+                        res["transitions"] += len(pieces)
+                        res["streams"] += 1
+                        kinds = [type(m).__name__ for m in got]
+                        if task.done():
+                            exc = task.exception() if not task.cancelled() else None
+                            record("bytes%r" % (jk[:6],), data.decode("latin1"), 2048, "2048", [("raises", "transport=%s,bytes" % side, "receive loop ended: %r" % (exc,))], [p.decode("latin1") for p in pieces][:6], {"mode": "transport"})
+                        elif side == "client" and kinds != ["GetProperties", "SetTextVector"] or side == "server" and kinds != ["GetProperties"]:
+                            # (a setTextVector is a device message: the server side hands only the getProperties to devices)
+                            record("bytes%r" % (jk[:6],), data.decode("latin1"), 2048, "2048", [("late-or-lost-around-junk", "transport=%s,bytes" % side, "delivered %r" % (kinds,))], [p.decode("latin1") for p in pieces][:6], {"mode": "transport"})
+                    finally:
+                        loop.teardown()
+        res["states"] = res["streams"]
+        res["violations"] = list(sig.values())
+        return res
     if what == "longtag":
         frs = list(longtag_streams())[shard[2]]
         S = "".join(frs)
@@ -590,6 +644,9 @@ def _t(x):
 
 
 def replay(rep):
+    if rep.get("mode") == "transport":
+        r = run_shard(("quick", "transport", 0))
+        return [{"clause": v["clause"], "disc": v["disc"], "what": v["what"]} for v in r["violations"]]
     S, T, tname = rep["stream"], rep["T"], rep["tname"]
     numbered = [(e, _t(v)) for e, v in rep["numbered"]]
     out = []
